@@ -255,7 +255,6 @@ def r_zero_fill(P, rep, rule):
                 var.fields['ty'] = box['declared']
                 var.fields['is_local'] = 1
                 box['var'] = var
-                rest = Obj(None, lazy=False, label='rest-slot', fields={'v': 0})
                 return [Sym('rest', 'ptr'), Obj('Token', lazy=True, label='tok'), var]
             try:
                 res = list(it.explore(fn, mk))
@@ -278,3 +277,111 @@ def r_zero_fill(P, rep, rule):
                 elif min(zi) > min(ci):
                     bad.append('the zero fill is evaluated after the assignments and wipes them')
             rep.ob(rule, key, not bad, 'block-scope %s with an initializer%s: %s' % (cls, ' whose type the initializer completes' if completed else '', '; '.join(sorted(set(bad)))), where=where)
+
+
+# ------------------------------------------------------------------------------------------------
+# R04.15  a declared VLA object gets storage of exactly the run-time size of its type, computed before the allocation
+# ------------------------------------------------------------------------------------------------
+def r_vla_object(P, rep, rule):
+    pu = P.unit('parse.c')
+    fn = 'declaration'
+    for f in (fn, 'new_alloca', 'compute_vla_size', 'declarator'):
+        if f not in pu.functions:
+            rep.undecided(rule, 'parse.c:%s' % f, '%s vanished' % f); return
+    E = pu.enums
+    for k in ('ND_BLOCK', 'ND_EXPR_STMT', 'ND_ASSIGN', 'ND_VLA_PTR', 'ND_VAR', 'TY_VLA', 'TY_INT'):
+        if k not in E:
+            rep.undecided(rule, 'parse.c:%s' % k, 'enumerator %s vanished' % k); return
+    where = 'parse.c:%d' % pu.fn(fn).line
+    for depth, tag in ((1, 'vla'), (2, 'vla-of-vla')):
+        key = 'parse.c:%s:%s' % (fn, tag)
+        box = {}
+
+        def h_equal(it_, ctx, nd, a):
+            if a[1] == ';':
+                ctx.c04_k = getattr(ctx, 'c04_k', 0) + 1
+                return 0 if ctx.c04_k == 1 else 1
+            return 0
+
+        def h_declarator(it_, ctx, nd, a, depth=depth):
+            base = Obj('Type', lazy=True, label='int')
+            base.fields.update({'kind': E['TY_INT'], 'size': 4, 'align': 4, 'base': 0})
+            t = base
+            for d in range(depth):
+                v = Obj('Type', lazy=True, label='vla%d' % d)
+                v.fields.update({'kind': E['TY_VLA'], 'size': 8, 'align': 8, 'base': t, 'vla_size': 0,
+                                 'vla_len': Obj('Node', lazy=True, label='len%d' % d)})
+                t = v
+            t.fields['name'] = Obj('Token', lazy=True, label='name')
+            box['ty'] = t
+            if isinstance(a[0], _Ref):
+                a[0].place.set(it_, Obj('Token', lazy=True, label='after-declarator'))
+            return t
+
+        def h_cvs(it_, ctx, nd, a):
+            t = it_.settle(a[0]) if isinstance(a[0], View) else a[0]
+            x = t
+            while isinstance(x, Obj) and x.fields.get('kind') == E['TY_VLA']:
+                x.fields['vla_size'] = Obj('Obj', lazy=True, label='size-of-' + x.label)
+                x = x.fields.get('base')
+            r = Obj('Node', lazy=False, label='size-computation', fields={'kind': E['ND_ASSIGN']})
+            ctx.emit('cvs', t, r, nd.line)
+            return r
+
+        def h_alloca(it_, ctx, nd, a):
+            r = Obj('Node', lazy=False, label='alloca-call', fields={'kind': E.get('ND_FUNCALL', -1)})
+            ctx.emit('alloca', a[0], r, nd.line)
+            return r
+
+        def h_lvar(it_, ctx, nd, a):
+            v = Obj('Obj', lazy=True, label='new-local')
+            v.fields.update({'name': a[0], 'ty': a[1], 'is_local': 1})
+            ctx.emit('new_lvar', a[1], v, nd.line)
+            return v
+        it = Interp(P, pu, {'cut': {'equal': h_equal, 'declarator': h_declarator, 'compute_vla_size': h_cvs, 'new_alloca': h_alloca, 'new_lvar': h_lvar,
+                                    'get_ident': lambda it_, ctx, nd, a: Sym('declared-name', 'char *'),
+                                    'skip': lambda it_, ctx, nd, a: Obj('Token', lazy=True, label='skipped')},
+                            'opaque': ['error_tok'], 'rec_limit': 2})
+
+        def mk(ctx):
+            it.ctx = ctx
+            return [Sym('rest', 'Token **'), Obj('Token', lazy=True, label='tok'), Obj('Type', lazy=True, label='basety'), 0]
+        try:
+            res = list(it.explore(fn, mk))
+        except AnalysisBroken as e:
+            rep.undecided(rule, key, 'not interpretable: %s' % e, where=where); continue
+        rets = [(c, o) for c, o in res if o[0] == 'ret']
+        if not rets:
+            rep.undecided(rule, key, 'no returning path (%d diagnosed)' % len(res), where=where); continue
+        bad = []
+        for ctx, out in rets:
+            def S(v):
+                return it.settle(v) if isinstance(v, View) else v
+            blk = S(out[1])
+            stmts = []
+            x = S(blk.fields.get('body')) if isinstance(blk, Obj) else None
+            while isinstance(x, Obj) and len(stmts) < 10:
+                stmts.append(x); x = S(x.fields.get('next', 0))
+            exprs = [S(s_.fields.get('lhs')) for s_ in stmts if s_.fields.get('kind') == E['ND_EXPR_STMT']]
+            cvs = [e for e in ctx.events if e[0] == 'cvs']
+            al = [e for e in ctx.events if e[0] == 'alloca']
+            lv = [e for e in ctx.events if e[0] == 'new_lvar']
+            ty = box['ty']
+            if len(al) != 1 or len(lv) != 1 or S(lv[0][1]) is not ty:
+                bad.append('the declaration does not create one local of the declared VLA type and one alloca() call (%d, %d)' % (len(lv), len(al))); continue
+            asg = [e for e in exprs if isinstance(e, Obj) and e.fields.get('kind') == E['ND_ASSIGN'] and S(e.fields.get('rhs')) is al[0][2]]
+            if len(asg) != 1:
+                bad.append('the allocated block is not assigned in a statement of the declaration'); continue
+            lhs = S(asg[0].fields.get('lhs'))
+            if not (isinstance(lhs, Obj) and lhs.fields.get('kind') == E['ND_VLA_PTR'] and S(lhs.fields.get('var')) is lv[0][2]):
+                bad.append('the block is not stored into the hidden pointer (ND_VLA_PTR) of the new variable: the name would designate some other storage'); continue
+            arg = S(al[0][1])
+            want = S(ty.fields.get('vla_size'))
+            if not (isinstance(arg, Obj) and arg.fields.get('kind') == E['ND_VAR'] and isinstance(want, Obj) and S(arg.fields.get('var')) is want):
+                bad.append('the block is not allocated with the size variable of the declared type (argument: %s): the object does not get vla_len * element size bytes and '
+                           'overlaps what is allocated next' % (getattr(arg, 'label', arg),)); continue
+            ci = [i for i, e in enumerate(exprs) if cvs and e is cvs[0][2]]
+            ai = exprs.index(asg[0])
+            if len(cvs) != 1 or S(cvs[0][1]) is not ty or not ci or ci[0] > ai:
+                bad.append('the size variable is not computed (compute_vla_size of the declared type) in a statement before the allocation')
+        rep.ob(rule, key, not bad, 'declaration of a %s object: %s' % (tag, '; '.join(sorted(set(bad)))), where=where)
